@@ -816,8 +816,16 @@ func (p Prop) Run(ci interface{}, focus *core.Violation) *core.Outcome {
 	c := ci.(*Case)
 	out := &core.Outcome{}
 	seen := map[string]bool{}
-	note := func(res *result, fired bool) string {
+	baseHash := ""
+	note := func(res *result, fired bool, fs []*ops.Fault) string {
 		h := core.Hash(res.sr.TraceHashParts()...)
+		if len(fs) > 0 {
+			var names []string
+			for _, f := range fs {
+				names = append(names, f.String())
+			}
+			h = ops.FaultedHash(baseHash, strings.Join(names, "+"), res.sr, kvDump(res.sr.D1), fmt.Sprint(res.panicked))
+		}
 		if (fired || res.failed > 0 || res.panicked) && !seen[h] {
 			seen[h] = true
 			out.Hashes = append(out.Hashes, h)
@@ -833,7 +841,8 @@ func (p Prop) Run(ci interface{}, focus *core.Violation) *core.Outcome {
 	out.Count("fault_free_runs", 1)
 	out.Count("blocks_failed_or_panicked", int64(base.failed))
 	out.Sample = map[string]interface{}{"case": c, "fault_free_driver_calls": len(base.sr.Events)}
-	h := note(base, false)
+	h := note(base, false, nil)
+	baseHash = h
 	out.TraceHash = h
 	if base.viol != nil {
 		base.viol.Key = "no_fault|" + base.viol.Key
@@ -854,6 +863,7 @@ func (p Prop) Run(ci interface{}, focus *core.Violation) *core.Outcome {
 	} else {
 		id := 0
 		sites := ops.DriverSites(base.sr.Events, &id)
+		ops.SortFaults(sites)
 		out.Count("sites_total", int64(len(sites)))
 		for i := range sites {
 			if sites[i].Drv.Kind == "next" && sites[i].Drv.Row > 1 {
@@ -892,7 +902,7 @@ func (p Prop) Run(ci interface{}, focus *core.Violation) *core.Outcome {
 				out.Count("not_fired:"+k, 1)
 			}
 		}
-		h := note(res, fired)
+		h := note(res, fired, fs)
 		if res.viol != nil {
 			res.viol.Key = faultKey(fs) + "|" + res.viol.Key
 			res.viol.Detail = fmt.Sprintf("with fault(s) %v: %s", fs, res.viol.Detail)
